@@ -188,6 +188,24 @@ func qWebpTable() qTable {
 	for _, st := range []int{0x20, 0x28, 0x40, 0x60} {
 		tb = tb.patch(qRF, st, "ok>28 ok>= mid>=", why)
 	}
+	// The public decode_frame_config / decode_frame wrappers have rows of their own ("pub:" tables): they first run
+	// the implicit decode_image_config to completion while call_sequence < 0x20 (that call decides is_vp8_lossy),
+	// and only then choose between the embedded vp8 decoder and the private VP8L half.
+	lossy := "; for a lossy file the call is delegated to the embedded vp8 decoder (checked as a still-image decoder itself) and webp's own field stays where the implicit decode_image_config left it (ok>=)"
+	tb["pub:"+qDFC] = []qRow{
+		{0x00, "ok>40 ok>20 mid>= mid>20", "the wrapper runs the implicit DIC first (0x00→0x20; a suspension stays at 0x00 and resumes through the same arm), then VP8L: 0x20→0x40" + lossy},
+		{0x20, "ok>40 ok>= mid>=", "VP8L: DFC after DIC moves 0x20→0x40" + lossy},
+		{0x28, "ok>40 ok>= mid>=", "VP8L: DFC after restart_frame moves to 0x40" + lossy},
+		{0x40, "eod>60 ok>= mid>=", "VP8L: a second DFC reports '@end of data', final state 0x60" + lossy},
+		{0x60, "eod>= ok>= mid>=", "VP8L: '@end of data' and stays" + lossy},
+	}
+	tb["pub:"+qDF] = []qRow{
+		{0x00, "ok>60 ok>20 mid>= mid>20 mid>40", "the wrapper runs the implicit DIC first (0x00→0x20), then VP8L: implicit DFC (0x40) and the only frame (0x60)" + lossy},
+		{0x20, "ok>60 ok>= mid>= mid>40", "VP8L: implicit DFC (0x40), then the only frame (0x60)" + lossy},
+		{0x28, "ok>60 ok>= mid>= mid>40", "same, after restart_frame" + lossy},
+		{0x40, "ok>60 ok>= mid>=", "VP8L: 0x40→0x60 on success only" + lossy},
+		{0x60, "eod>= ok>= mid>=", "VP8L: '@end of data'" + lossy},
+	}
 	for _, r := range qStillTable()[qNDFC] {
 		tb = tb.patch(qNDFC, r.state, r.spec+" val:?", why)
 	}
@@ -225,7 +243,7 @@ func qGifTable() qTable {
 			{0x10, "bcs", side}, {0x20, "bcs", "DIC is illegal after DIC"}, {0x28, "bcs", "same"}, {0x40, "bcs", "same"}, {0x60, "bcs", "same"},
 		},
 		qDFC: {
-			{0x00, "ok>40 eod>60 mid>= mid>20 mid>60 meta>10 meta>20 meta>60 meta>=", "implicit DIC, then the first frame config; " + meta},
+			{0x00, "ok>40 eod>60 mid>= mid>20 meta>10 meta>20 meta>=", "implicit DIC, then the first frame config; when the implicit DIC has met the trailer (0x60, no frames) the call ends there with '@end of data': no work and no metadata report at 0x60; " + meta},
 			{0x10, "bcs", side},
 			{0x20, "ok>40 eod>60 mid>= meta>=", anim},
 			{0x28, "ok>40 eod>60 mid>= meta>=", anim + "; after restart_frame"},
@@ -233,7 +251,7 @@ func qGifTable() qTable {
 			{0x60, "eod>=", "after the end"},
 		},
 		qDF: {
-			{0x00, "ok>20 eod>60 mid>= mid>20 mid>40 mid>60 meta>10 meta>20 meta>60 meta>=", "implicit DIC and DFC; " + anim + "; " + meta},
+			{0x00, "ok>20 eod>60 mid>= mid>20 mid>40 meta>10 meta>20 meta>=", "implicit DIC and DFC (which ends with '@end of data' at 0x60 when there are no frames); " + anim + "; " + meta},
 			{0x10, "bcs", side},
 			{0x20, "ok>20 eod>60 mid>= mid>40 meta>=", anim},
 			{0x28, "ok>20 eod>60 mid>= mid>40 meta>=", anim},
@@ -477,9 +495,6 @@ func runC08CallSeq(c *core.Ctx, std []*WPkg) {
 			continue
 		}
 		d.an = newWqAn(d.p, d.s.QID()[1], "call_sequence")
-		if dump {
-			qDump(d)
-		}
 		fam, ok := qFamilies[d.family]
 		if !ok {
 			// gif, png: see notes/C08.md — reported, not armed.
@@ -518,7 +533,11 @@ func runC08CallSeq(c *core.Ctx, std []*WPkg) {
 					continue
 				}
 				var diffs, bcsIO []string
-				for _, row := range tb[logical] {
+				rows := tb[logical]
+				if r, ok := tb["pub:"+logical]; ok && mname == logical {
+					rows = r // the public wrapper has rows of its own
+				}
+				for _, row := range rows {
 					o := qObserve(row.state, f.Effect().Coroutine(), d.an.outcomes(id, row.state))
 					for _, x := range o.bad {
 						diffs = append(diffs, fmt.Sprintf("state 0x%02X: %s", row.state, x))
@@ -538,10 +557,6 @@ func runC08CallSeq(c *core.Ctx, std []*WPkg) {
 				}
 				und := d.an.undecBy[id]
 				anchor := d.anchor(mname)
-				if d.family == "webp" && (mname == qDFC || mname == qDF) && qOnlyDelegationResume(und) {
-					c.Info("Q2."+logical, anchor, "NOT ARMED (finding, see notes/C08.md F-webp): the public wrapper chooses between `this.vp8."+mname+"?` and `this.do_"+mname+"?` on `this.is_vp8_lossy`, which do_decode_image_config flips while it runs as an implicit call; the private half is checked instead")
-					continue
-				}
 				if len(und) > 0 {
 					c.Undecided("Q2."+logical, anchor, "the method body is within the analysed subset of Wuffs", fmt.Sprintf("%s: %s", qFile(f), strings.Join(und, "; ")))
 					continue
@@ -549,9 +564,9 @@ func runC08CallSeq(c *core.Ctx, std []*WPkg) {
 				nMethods++
 				c.Check(len(diffs) == 0, "Q2."+logical, anchor,
 					"at every documented state the method ends exactly as the "+d.family+" call-sequence machine says: rejected with \"#bad call sequence\" where the interface forbids the call, success moves to the documented next state on every success exit and only there, \"@end of data\" where the image has ended; otherwise out-of-order calls are accepted or in-order calls rejected",
-					len(tb[logical]), fmt.Sprintf("%s %s\n%s", qFile(f), mname, strings.Join(diffs, "\n")))
+					len(rows), fmt.Sprintf("%s %s\n%s", qFile(f), mname, strings.Join(diffs, "\n")))
 				hasBcs := false
-				for _, row := range tb[logical] {
+				for _, row := range rows {
 					if strings.Contains(" "+row.spec+" ", " bcs ") {
 						hasBcs = true
 					}
@@ -559,7 +574,7 @@ func runC08CallSeq(c *core.Ctx, std []*WPkg) {
 				if hasBcs {
 					c.Check(len(bcsIO) == 0, "Q4.guardfirst", anchor,
 						"a rejected call returns \"#bad call sequence\" before any read, skip or sub-decoder call on args.src: the guard on call_sequence comes first, otherwise an out-of-order call would consume input or suspend instead of being rejected",
-						len(tb[logical]), fmt.Sprintf("%s: \"#bad call sequence\" is reached after I/O in %s", qFile(f), strings.Join(bcsIO, ", ")))
+						len(rows), fmt.Sprintf("%s: \"#bad call sequence\" is reached after I/O in %s", qFile(f), strings.Join(bcsIO, ", ")))
 				}
 				if d.family == "still" {
 					key := qSiblingKey(d, id, f)
@@ -613,10 +628,9 @@ func runC08CallSeq(c *core.Ctx, std []*WPkg) {
 		}
 		sort.Strings(away)
 		claim5 := "0x60 (the image has ended, \"@end of data\") is final: on no analysed path does an assignment inside a decode call move call_sequence from 0x60 to another state; only restart_frame leaves it. Otherwise a call that has just met the end of the image goes on to report a frame that does not exist"
-		if d.family == "gif" && len(away) == 1 && away[0] == "do_decode_frame_config moves 0x60→0x40" {
-			c.Info("Q5.final", d.anchor("call_sequence"), "NOT ARMED (finding, see notes/C08.md F-gif): do_decode_frame_config on a fresh decoder implicitly calls do_decode_image_config, which for a GIF without frames leaves 0x60, and then goes on to `this.call_sequence = 0x40` and returns ok")
-		} else {
-			c.Check(len(away) == 0, "Q5.final", d.anchor("call_sequence"), claim5, len(d.an.trans), strings.Join(away, "; "))
+		c.Check(len(away) == 0, "Q5.final", d.anchor("call_sequence"), claim5, len(d.an.trans), strings.Join(away, "; "))
+		if dump {
+			qDump(d) // after Q5: the dump also queries private helpers at entry values they are never called with
 		}
 		nGuards += len(d.an.guards)
 		nUpdates += len(d.an.updates)
@@ -669,19 +683,6 @@ func runC08CallSeq(c *core.Ctx, std []*WPkg) {
 	c.Floor("Q2.rows", "reference rows compared", nRows, 480)
 	c.Floor("Q.guards.total", "conditions on call_sequence", nGuards, 120)
 	c.Floor("Q.updates.total", "assignments to call_sequence", nUpdates, 70)
-}
-
-// qOnlyDelegationResume: the only thing the engine could not decide is the webp wrapper shape.
-func qOnlyDelegationResume(und []string) bool {
-	if len(und) == 0 {
-		return false
-	}
-	for _, u := range und {
-		if !strings.Contains(u, "after yielding a captured suspension an impure call happens before the suspended callee is re-entered") {
-			return false
-		}
-	}
-	return true
 }
 
 // qSiblingKey renders the exact classes of a method at the documented states.
